@@ -234,7 +234,71 @@ def cases(tier):
             pres = ['none', 'struct']
         for pre in pres:
             out.append({'fn': 'run_requests', 'id': f'{name}/pre-{pre}', 'params': {'req': name, 'pre': pre}})
+    for layout in ('hook-in-ancestor', 'limits-tuple-in-subclass'):
+        out.append({'fn': 'run_inherited_limits', 'id': f'inherited-limits/{layout}', 'params': {'layout': layout}})
     return out
+
+
+def run_inherited_limits(env, p):
+    """limit parameters declared in a subclass of the class that carries the check_ hook (and vice versa) are still enforced"""
+    from frappy.core import Module, Parameter, FloatRange
+    from frappy.params import Limit
+    from frappy.errors import RangeError
+    log = []
+    layout = p['layout']
+
+    class Anc(Module):
+        a = Parameter('a', FloatRange(-100, 100), readonly=False, default=0)
+        if layout in ('hook-in-ancestor', 'both-in-ancestor'):
+            def check_a(self, value):
+                if value == 13:
+                    raise RangeError('unlucky')
+        if layout == 'both-in-ancestor':
+            a_min = Limit()
+            a_max = Limit()
+
+        def write_a(self, value):
+            log.append(('a', value))
+            return value
+
+    if layout == 'hook-in-ancestor':
+        class Lim(Anc):
+            a_min = Limit()
+            a_max = Limit()
+    elif layout == 'limits-tuple-in-subclass':
+        class Lim(Anc):
+            a_limits = Limit()
+    else:
+        class Lim(Anc):
+            pass
+    srv = C.make_node({'lm': {'cls': Lim, 'description': 'lm'}})
+    K = 'C04/inherited-limits/' + layout
+    lo = env.real('lo', -100, 100)
+    hi = env.real('hi', -100, 100)
+    env.assume(lo <= hi)
+    x = env.real('x', -100, 100)
+    if layout == 'limits-tuple-in-subclass':
+        reqs = [('change', 'lm:_a_limits', [lo, hi]), ('change', 'lm:_a', x)]
+    else:
+        reqs = [('change', 'lm:_a_min', lo), ('change', 'lm:_a_max', hi), ('change', 'lm:_a', x)]
+    h, per = C.scripted_handler(srv, reqs)
+    for rep in per[:-1]:
+        env.check(rep[0][0] == 'changed', K + '/limit-change-refused', rep[0][:2])
+    reply = per[-1][0]
+    accepted = reply[0] == 'changed'
+    inside = M.And(lo <= x, x <= hi)
+    if accepted:
+        env.note('reached-driver')
+        env.check(inside, K + '/dynamic-limit-bypassed')
+        env.check(log[-1:] == [('a', x)] or M.eq(log[-1][1], x), K + '/driver-got-other-value')
+    else:
+        env.note('refused')
+        env.check(reply[2][0] == 'RangeError', K + '/wrong-error-class', reply[2][0])
+        if layout in ('hook-in-ancestor', 'both-in-ancestor'):
+            env.check(M.Or(M.Not(inside), x == 13), K + '/refused-inside-limits')
+        else:
+            env.check(M.Not(inside), K + '/refused-inside-limits')
+        env.check(not [e for e in log if e[0] == 'a'], K + '/driver-called-although-refused')
 
 
 def snapshot(mod):
